@@ -407,6 +407,34 @@ def same_start(ast: list, rng: random.Random) -> list | None:
     return ast
 
 
+def counts_twin(ast: list, rng: random.Random) -> list | None:
+    """A twin of `ast` over the SAME event names in which one AND/OR fork gets an extra branch
+    holding one event of the type that already opens another branch: the event before the fork
+    then has the same follower TYPES as in `ast` but with counts > 1.  Used as a conversion
+    that runs in the same interpreter BEFORE the plain definition (process-history
+    presentation of C03): whatever the learner keeps between calls must not change the answer
+    for the plain job set."""
+    import copy
+    ast = copy.deepcopy(ast)
+    forks: list = []
+
+    def walk(seq: list) -> None:
+        for st in seq:
+            if st[0] in ("and", "or", "xor"):
+                if st[0] in ("and", "or") and all(b and b[0][0] == "ev" for b in st[1]):
+                    forks.append(st)
+                for b in st[1]:
+                    walk(b)
+            elif st[0] == "loop":
+                walk(st[1])
+    walk(ast)
+    if not forks:
+        return None
+    f = rng.choice(forks)
+    f[1].append([rng.choice(f[1])[0]])
+    return ast
+
+
 def random_counts_def(rng: random.Random) -> list:
     """A definition whose executions carry successor/predecessor multisets with counts > 1."""
     for _ in range(2000):
